@@ -135,6 +135,8 @@ def shards(tier: str, seed: int):
                 out.append(["simple", b.bid, k, part, nparts])
         out.append(["der", b.bid])
         out.append(["kid", b.bid])
+        if "/nonce/" in b.bid and "/long" not in b.bid:
+            out.append(["l0sweep", b.bid])
     for part in range(8):
         out.append(["short", part])
     out.append(["hdr2"])
@@ -150,11 +152,50 @@ def other_root(seed: int):
 _cur: t.Dict[str, t.Any] = {"shard": None, "tier": None}
 
 
+def l0_variants(base: bm.Base, l0s) -> t.List[t.Tuple[int, bytes]]:
+    from ref import cms, gkdi
+
+    b = cms.decode(base.blob)
+    kid = gkdi.unpack_keyid(b.keyid)
+    return [(l0, cms.encode(b._replace(keyid=gkdi.pack_keyid(kid._replace(l0=l0))))) for l0 in l0s]
+
+
 def run_shard(shard, tier, seed, acc) -> None:
     worker_init()
     _cur.update(shard=shard, tier=tier)
     allowed = allowed_types()
     what = shard[0]
+    if what == "l0sweep":
+        # ONE long-lived cache (root key loaded) meets blobs that name many different L0 values (all wrong keys -> rejected), in
+        # ascending, descending and zig-zag order; afterwards the untouched blob and valid blobs of lower / higher L0 still open on it
+        base = bm.base_by_id(seed, shard[1])
+        d = seams.Drbg(("C05l0", seed))
+        l0b = bm.POS[0]
+        olds = {l0: cms.ref_encrypt(base.rk, bm.SID, b"old", (l0, 3, 5), cek=d.bytes(32), gcm_nonce_=d.bytes(12), key_nonce=d.bytes(32)) for l0 in (l0b - 40, l0b - 1, l0b + 1, 5)}
+        n = 0
+        for order in ("asc", "desc", "zigzag"):
+            warm = seams.make_cache(base.rk)
+            l0s = [l0b - 30 + 3 * i for i in range(40) if l0b - 30 + 3 * i != l0b]
+            if order == "desc":
+                l0s = l0s[::-1]
+            elif order == "zigzag":
+                l0s = [x for pair in zip(l0s[:20], l0s[:19:-1]) for x in pair]
+            for l0, data in l0_variants(base, l0s):
+                judge(acc, base.rk, ["l0sweep", base.bid, order, l0], data, allowed, cache=warm)
+                n += 1
+            for name, data, want in [("valid", base.blob, base.plaintext)] + [(f"old{l0}", blob_, b"old") for l0, blob_ in olds.items()]:
+                st, v, steps, kdfs = execute(base.rk, data, warm)
+                n += 1
+                if st != "ok" or bytes(v) != want:
+                    acc.violate("l0sweep.valid-blob-fails-after-history", ["shard", shard, tier], {"order": order, "which": name, "outcome": st, "value": repr(v)[:120]}, size=10**5)
+                else:
+                    acc.outcome("l0sweep:valid-ok")
+        acc.ev(n)
+        acc.nt_counted(n)
+        acc.states += n
+        acc.transitions += n
+        acc.sample({"blob": base.bid, "L0 values on one cache": 39, "orders": ["asc", "desc", "zigzag"]})
+        return
     n = 0
     if what in ("simple", "der", "kid"):
         base = bm.base_by_id(seed, shard[1])
@@ -231,6 +272,14 @@ def replay(case, seed, acc) -> None:
     allowed = allowed_types()
     acc.ev()
     k = case[0]
+    if k == "l0sweep":
+        run_shard(["l0sweep", case[1]], "quick", seed, acc)
+        for kk in list(acc.violations):
+            acc.violations[kk] = [e for e in acc.violations[kk] if e["case"] == case]
+            if not acc.violations[kk]:
+                del acc.violations[kk]
+        acc.violation_count = sum(len(v) for v in acc.violations.values())
+        return
     if k in ("mut", "mut-wrongkey", "mut-warmcache"):
         base = bm.base_by_id(seed, case[1])
         lab = case[2]
